@@ -376,6 +376,18 @@ func (f *frame) pureCall(in *ssa.Call) {
 			h := x.havocPure("nolast", "Int")
 			setT(h, h)
 			return
+		case "nchanges", "lastold", "lastnew":
+			// ghosts of typed atomics (atomtyped.go), keyed by the field name
+			if c, ok := in.Call.Args[0].(*ssa.Const); ok && c.Value != nil {
+				pre := map[string]string{"nchanges": "Ghost_atom_nch_", "lastold": "Ghost_atom_old_", "lastnew": "Ghost_atom_new_"}[callee.Name()]
+				cn := pre + sanitize(constant.StringVal(c.Value))
+				x.comp(cn, "Int")
+				setT(f.mem[0].heapOf(cn, "Int"), f.mem[1].heapOf(cn, "Int"))
+				return
+			}
+			x.errorf("%s needs a string literal", callee.Name())
+			setT("0", "0")
+			return
 		case "lastret":
 			// integer result of the most recent call of the named callee on this path (ghost)
 			if c, ok := in.Call.Args[0].(*ssa.Const); ok && c.Value != nil {
